@@ -38,16 +38,25 @@ fn c06_merge() {
         let k = 1 + rng.below(6) as usize; let pool = keyset(r % 5, 150, &mut rng);
         patterns.push((0..k).map(|_| pool.iter().filter(|_| rng.below(3) == 0).cloned().collect()).collect());
     }
+    // every third pattern gives all sources the SAME value for a key (a merger that drops repeated values is seen), the others a
+    // value naming its source (a merger that misorders sources is seen)
+    fn val_of(pi: usize, si: usize, k: &[u8]) -> Vec<u8> { if pi % 3 == 1 { format!("v:{}", hex(k)).into_bytes() } else { format!("s{}:{}", si, hex(k)).into_bytes() } }
     for (pi, srcs) in patterns.iter().enumerate() {
         let files: Vec<Vec<u8>> = srcs.iter().enumerate().map(|(si, ks)| { let cfg = Cfg { levels: (si % 3) as u8, interval: 1 + si % 3, ..base.clone() };
-            write_file(&cfg, &ks.iter().map(|k| (k.clone(), format!("s{}:{}", si, hex(k)).into_bytes())).collect()) }).collect();
+            write_file(&cfg, &ks.iter().map(|k| (k.clone(), val_of(pi, si, k))).collect()) }).collect();
         let mut want: BTreeMap<Vec<u8>, Vec<Vec<u8>>> = BTreeMap::new();
-        for (si, ks) in srcs.iter().enumerate() { for k in ks { want.entry(k.clone()).or_default().push(format!("s{}:{}", si, hex(k)).into_bytes()); } }
+        for (si, ks) in srcs.iter().enumerate() { for k in ks { want.entry(k.clone()).or_default().push(val_of(pi, si, k)); } }
         let want_out: Entries = want.iter().map(|(k, vs)| (k.clone(), vs.join(&b'|'))).collect();
         for route in 0..2 {
             let calls = Rc::new(RefCell::new(vec![]));
             let mut b = Merger::builder(Bar { calls: calls.clone() });
-            for (i, f) in files.iter().enumerate() { let c = Reader::new(Cursor::new(&f[..])).unwrap().into_cursor().unwrap(); if i % 2 == 0 { b.push(c); } else { b = b.add(c); } }
+            // the three ways of adding sources: push / add alternately; push the first then `extend` with the rest; `extend` on the empty builder
+            let cursors: Vec<_> = files.iter().map(|f| Reader::new(Cursor::new(&f[..])).unwrap().into_cursor().unwrap()).collect();
+            match (pi / 2) % 3 {
+                0 => { for (i, c) in cursors.into_iter().enumerate() { if i % 2 == 0 { b.push(c); } else { b = b.add(c); } } }
+                1 => { let mut it = cursors.into_iter(); if let Some(c) = it.next() { b.push(c); } b.extend(it); }
+                _ => { b.extend(cursors); }
+            }
             let got: Entries = if route == 0 {
                 let mut it = b.build().into_stream_merger_iter().unwrap(); let mut out = vec![];
                 while let Some((k, v)) = it.next().unwrap() { out.push((k.to_vec(), v.to_vec())); }
@@ -62,8 +71,13 @@ fn c06_merge() {
                     d.map(|i| (hex(&got[i].0), String::from_utf8_lossy(&got[i].1).to_string())), d.map(|i| (hex(&want_out[i].0), String::from_utf8_lossy(&want_out[i].1).to_string())),
                     if srcs.len() <= 3 { format!("{:?}", srcs.iter().map(|s| s.iter().map(|k| hex(k)).collect::<Vec<_>>()).collect::<Vec<_>>()) } else { format!("pattern #{}", pi) })); }
             let calls = calls.borrow();
-            let want_calls: Vec<(Vec<u8>, usize)> = want.iter().map(|(k, vs)| (k.clone(), vs.len())).collect();
-            if *calls != want_calls { cex(format!("C06 merge function calls differ: got {} calls want {} (one call per key with all its values) pattern #{}", calls.len(), want_calls.len(), pi)); }
+            // one call per key held by several sources, with all its values; a key held by one source may be passed to the merge
+            // function (one call, one value) or handed through unchanged (no call): the statement allows both
+            let want_multi: Vec<(Vec<u8>, usize)> = want.iter().filter(|(_, vs)| vs.len() >= 2).map(|(k, vs)| (k.clone(), vs.len())).collect();
+            let got_multi: Vec<(Vec<u8>, usize)> = calls.iter().filter(|c| c.1 >= 2).cloned().collect();
+            if got_multi != want_multi { cex(format!("C06 merge function calls differ: got {} calls with several values, want {} (exactly one call per key held by several sources, with all its values) pattern #{}", got_multi.len(), want_multi.len(), pi)); }
+            let lone: Vec<&Vec<u8>> = calls.iter().filter(|c| c.1 < 2).map(|c| &c.0).collect();
+            for (i, k) in lone.iter().enumerate() { if want.get(*k).map(|vs| vs.len()) != Some(1) || lone[..i].contains(k) { cex(format!("C06 merge function called with a single value for key {} which is not a key held by exactly one source, or called twice for it; pattern #{}", hex(k), pi)); } }
             cases += 1;
         }
     }
@@ -88,11 +102,7 @@ fn token(i: u32) -> Vec<u8> { let mut t = i.wrapping_mul(0x9E37_79B1).to_be_byte
 
 struct SorterCfg { threshold: usize, realloc: bool, max_chunks: usize, algo: SortAlgorithm, par: bool, ct: grenad::CompressionType, levels: u8, block: usize, interval: usize }
 
-fn run_sorter(sc: &SorterCfg, inserts: &[(Vec<u8>, Vec<u8>)], route: usize) -> Result<Entries, String> {
-    let mut b = Sorter::builder(Concat);
-    b.dump_threshold(sc.threshold).allow_realloc(sc.realloc).max_nb_chunks(sc.max_chunks).sort_algorithm(sc.algo).sort_in_parallel(sc.par)
-        .chunk_compression_type(sc.ct).index_levels(sc.levels).block_size(sc.block).index_key_interval(std::num::NonZeroUsize::new(sc.interval).unwrap());
-    let mut s = b.chunk_creator(CursorVec).build();
+fn consume<CC: ChunkCreator>(mut s: Sorter<Concat, CC>, inserts: &[(Vec<u8>, Vec<u8>)], route: usize) -> Result<Entries, String> where CC::Chunk: 'static {
     for (k, v) in inserts { s.insert(k, v).map_err(|e| format!("insert: {}", e))?; }
     let mut out = vec![];
     match route {
@@ -104,12 +114,20 @@ fn run_sorter(sc: &SorterCfg, inserts: &[(Vec<u8>, Vec<u8>)], route: usize) -> R
     }
     Ok(out)
 }
+/// `default_storage`: keep the builder's default chunk creator (temporary files) instead of in-memory chunks
+fn run_sorter_with(sc: &SorterCfg, inserts: &[(Vec<u8>, Vec<u8>)], route: usize, default_storage: bool) -> Result<Entries, String> {
+    let mut b = Sorter::builder(Concat);
+    b.dump_threshold(sc.threshold).allow_realloc(sc.realloc).max_nb_chunks(sc.max_chunks).sort_algorithm(sc.algo).sort_in_parallel(sc.par)
+        .chunk_compression_type(sc.ct).index_levels(sc.levels).block_size(sc.block).index_key_interval(std::num::NonZeroUsize::new(sc.interval).unwrap());
+    if default_storage { consume(b.build(), inserts, route) } else { consume(b.chunk_creator(CursorVec).build(), inserts, route) }
+}
+fn run_sorter(sc: &SorterCfg, inserts: &[(Vec<u8>, Vec<u8>)], route: usize) -> Result<Entries, String> { run_sorter_with(sc, inserts, route, false) }
 
 #[test]
 fn c07_sorter_equals_sort_and_merge() {
     let mut rng = Rng::new(seed() + 22);
     let mut runs = 0; let mut spilled_runs = 0;
-    let volumes: Vec<usize> = if tier_thorough() { vec![0, 1, 300, 45_000, 90_000, 140_000] } else { vec![0, 300, 45_000, 95_000] }; // inserts of ~270 B each: 45k ~ 12 MiB
+    let volumes: Vec<usize> = if profile_dev() { vec![0, 300, 45_000] } else if tier_thorough() { vec![0, 1, 300, 45_000, 90_000, 140_000] } else { vec![0, 300, 45_000, 95_000] }; // inserts of ~270 B each: 45k ~ 12 MiB
     for (vi, &n) in volumes.iter().enumerate() {
         let nkeys = [1usize, 7, 500, 4000][vi % 4];
         let keys = keyset(vi + 3, nkeys, &mut rng);
@@ -126,9 +144,13 @@ fn c07_sorter_equals_sort_and_merge() {
         ];
         for (ci, sc) in cfgs.iter().enumerate() {
             if !tier_thorough() && n > 50_000 && ci % 2 == 1 { continue; }
+            if profile_dev() && n > 1000 && ci >= 2 { continue; } // dev profile: the spilling volume only for cfg#0 (max 2 chunks) and cfg#1 (max 1 chunk: every spill merges)
             for route in 0..3 {
                 if !tier_thorough() && n > 1000 && route != (ci + vi) % 3 && !(ci == 0) { continue; }
-                let got = run_sorter(sc, &inserts, route).unwrap_or_else(|e| cex(format!("C07 sorter failed: {} (n={} cfg#{} route {})", e, n, ci, route)));
+                let got = match std::panic::catch_unwind(std::panic::AssertUnwindSafe(|| run_sorter_with(sc, &inserts, route, (ci + vi + route) % 4 == 0))) {
+                    Err(p) => { let m = p.downcast_ref::<String>().cloned().or_else(|| p.downcast_ref::<&str>().map(|s| s.to_string())).unwrap_or_default();
+                        cex(format!("C07 sorter panicked: `{}` -- input: {} inserts, cfg#{} (dump_threshold {} realloc={} max_nb_chunks={} algo={:?} parallel={} codec={:?}), consumed by route {}, {} build", m, inserts.len(), ci, sc.threshold, sc.realloc, sc.max_chunks, sc.algo, sc.par, sc.ct, route, if profile_dev() { "dev-profile" } else { "release" })) }
+                    Ok(r) => r.unwrap_or_else(|e| cex(format!("C07 sorter failed: {} (n={} cfg#{} route {})", e, n, ci, route))) };
                 let gk: Vec<&Vec<u8>> = got.iter().map(|e| &e.0).collect(); let wk: Vec<&Vec<u8>> = want_stable.keys().collect();
                 if gk != wk { cex(format!("C07 output keys differ: got {} keys want {} distinct inserted keys (n={} inserts, cfg#{} realloc={} max_chunks={} route {}); first got {:?} first want {:?}", gk.len(), wk.len(), inserts.len(), ci, sc.realloc, sc.max_chunks, route, gk.first().map(|k| hex(k)), wk.first().map(|k| hex(k)))); }
                 for (k, v) in &got {
@@ -225,8 +247,24 @@ fn c08_spill_bounds() {
     let mut rng = Rng::new(seed() + 23);
     let mut runs = 0;
     let mib = 1024 * 1024;
-    for &(threshold, realloc, max_chunks, fail_at) in &[(0usize, true, 2usize, None), (0, false, 1, None), (10 * mib + 8, false, 3, None), (12 * mib + 5, true, 1, None), (0, false, 2, Some(3usize)), (0, true, 25, None), (10 * mib + 8, false, 2, Some(4))] {
-        let budget = threshold.max(10 * mib);
+    let floor = {
+        let created = Arc::new(AtomicUsize::new(0));
+        let cc = CountingChunks { live: Arc::new(AtomicIsize::new(0)), peak: Arc::new(AtomicIsize::new(0)), created: created.clone(), fail_create_at: None };
+        let mut b = Sorter::builder(Concat); b.dump_threshold(0).allow_realloc(false).max_nb_chunks(1000);
+        let mut s = b.chunk_creator(cc).build();
+        let mut in_use = 0usize; let mut i = 0u32;
+        loop { let key = i.to_be_bytes(); let val = vec![1u8; 1000]; s.insert(&key, &val).unwrap(); in_use += 16 + key.len() + val.len(); i += 1;
+            if created.load(Ordering::SeqCst) > 0 { break; } if in_use > 4096 * mib { cex("C08 a fixed-size sorter with a zero budget accepted 4 GiB without spilling".into()); } }
+        in_use
+    };
+    stat("measured_floor", floor);
+    // budgets: zero (raised to the floor), just above the floor, and well above it but far from any round number
+    let above = floor + floor / 4 + 5;
+    for &(threshold, realloc, max_chunks, fail_at) in &[(0usize, true, 2usize, None), (0, false, 1, None), (10 * mib + 8, false, 3, None), (12 * mib + 5, true, 1, None), (0, false, 2, Some(3usize)), (0, true, 25, None), (10 * mib + 8, false, 2, Some(4)), (above, false, 2, None), (above + 3, true, 3, None)] {
+        // the *effective* budget: a request below the sorter's floor is raised to the floor. The statement does not fix the floor,
+        // so it is measured (bytes a fixed-size sorter asked for a zero budget accepts before its first spill, rounded up by at
+        // most one 1 KiB entry) instead of being copied from the source
+        let budget = threshold.max(floor);
         let (live, peak, created) = (Arc::new(AtomicIsize::new(0)), Arc::new(AtomicIsize::new(0)), Arc::new(AtomicUsize::new(0)));
         let cc = CountingChunks { live: live.clone(), peak: peak.clone(), created: created.clone(), fail_create_at: fail_at };
         let mut b = Sorter::builder(Concat); b.dump_threshold(threshold).allow_realloc(realloc).max_nb_chunks(max_chunks);
